@@ -140,6 +140,8 @@ func (c *peerConn) Close() error {
 	return nil
 }
 
+func (c *peerConn) isClosed() bool { c.mu.Lock(); defer c.mu.Unlock(); return c.closed }
+
 func (c *peerConn) mute() { c.mu.Lock(); c.muted = true; c.mu.Unlock() }
 
 func (c *peerConn) LocalAddr() net.Addr                { return paddr("127.0.0.1:50000") }
